@@ -61,7 +61,7 @@ func (c *Check) expiredBatchRules(prefix string, which map[string]bool) {
 		}
 		if X == nil {
 			add("persist", "the context is not persisted", pa)
-			X = atom("P1")
+			X = u.EB.val()
 		}
 		idx := func(pred func(*Eff) bool) int {
 			for i, ev := range pa.Events {
@@ -106,7 +106,7 @@ func (c *Check) expiredBatchRules(prefix string, which map[string]bool) {
 			add("clean-order", "the batch is completed before its pending requests are expired", pa)
 		}
 		// a batch that is not completed yet must be scanned and completed
-		if hasEq(af, field("RequestContext", "BatchState", atom("P1")), "#types.BATCHCOMPLETED", true) && (iScan < 0 || iComplete < 0) {
+		if hasEq(af, field("RequestContext", "BatchState", u.EB.val()), "#types.BATCHCOMPLETED", true) && (iScan < 0 || iComplete < 0) {
 			add("complete-at-expiry", "a batch that is not completed is neither scanned nor completed at expiry", pa)
 		}
 		// case analysis on the continuation
@@ -155,7 +155,7 @@ func (c *Check) expiredBatchRules(prefix string, which map[string]bool) {
 				for _, e := range c.P.effectsOfEvent(f, ev) {
 					if e.Kind == "store" && e.Op == "Set" && e.Family == "0x10" {
 						k := keyArgs(e)
-						if len(k) != 2 || !k[0].IsAt("P0") || k[1].String() != nextHeightTerm(X) {
+						if len(k) != 2 || !k[0].IsAt(u.EB.IdP) || k[1].String() != nextHeightTerm(X) {
 							add("next-height", "the next batch is queued at "+fmtTerms(k)+" — not (id, BlockHeight − Timeout + RepeatedFrequency)", pa)
 						}
 					}
@@ -170,7 +170,7 @@ func (c *Check) expiredBatchRules(prefix string, which map[string]bool) {
 			for _, e := range c.P.effectsOfEvent(f, ev) {
 				if e.Kind == "store" && e.Op == "Iter" && e.Family == "0x13" {
 					k := keyArgs(e)
-					if len(k) != 2 || !k[0].IsAt("P0") || k[1].String() != "(.RequestContext.BatchCounter P1)" {
+					if len(k) != 2 || !k[0].IsAt(u.EB.IdP) || k[1].String() != "(.RequestContext.BatchCounter "+u.EB.ValP+")" {
 						add("clean-args", "the clean scan is keyed by "+fmtTerms(k)+" — not (id, the context's BatchCounter)", pa)
 					}
 				}
@@ -304,7 +304,11 @@ func (c *Check) queuePairs(prefix string) {
 	n := 0
 	for _, f := range c.handFuncs("keeper", "service") {
 		// skip the single-record primitives themselves
-		if len(c.P.SummaryOf(f).Effs) <= 1 {
+		sites := map[string]bool{}
+		for _, e := range c.P.SummaryOf(f).Effs {
+			sites[e.SiteKey()] = true
+		}
+		if len(sites) <= 1 {
 			continue
 		}
 		for _, pa := range c.P.PathsOf(f) {
@@ -470,7 +474,7 @@ func (c *Check) newBatchDequeue(prefix string) {
 				d12++
 			}
 		}
-		ok := d10 == 1 && d12 == 1 && len(key) == 2 && key[0].IsAt("P0") && key[1].IsAt("BlockHeight")
+		ok := d10 == 1 && d12 == 1 && len(key) == 2 && key[0].IsAt(u.NB.IdP) && key[1].IsAt("BlockHeight")
 		if _, seen := classes[class]; !seen {
 			okAll[class] = true
 		}
@@ -485,7 +489,7 @@ func (c *Check) newBatchDequeue(prefix string) {
 	}
 	sort.Strings(cl)
 	for _, k := range cl {
-		c.req(okAll[k], prefix+".new-batch.dequeue", unitConstruct(f, "dequeue:"+k), f.Body.Pos(),
+		c.req(okAll[k], prefix+".new-batch.dequeue", "new-batch-handler#dequeue:"+k, f.Body.Pos(),
 			"every exit of the new-batch handler removes the queue entry (id, BlockHeight) and its pointer — exits of class "+k)
 	}
 }
